@@ -493,7 +493,8 @@ TOPLEVEL = [
     ("verbatim", "TMin = max(self.minPossibleTemperature[0], TMin)"),
     ("verbatim", "TMax = min(self.maxPossibleTemperature[0], TMax)"),
     ("verbatim", "scipyKwargs = {'rtol': rTol, 'atol': tolAbsolute, 'max_step': dT, "
-                 "'first_step': phaseTracerFirstStep}"),
+                 "'first_step': None if phaseTracerFirstStep is None else "
+                 "phaseTracerFirstStep * dT}"),
     ("verbatim", "endpoints = [TMax, TMin]"),
     ("for",),
     ("tail",),
